@@ -42,7 +42,7 @@ OBLIGATION = {
     9: "P9 (ManifestInstall: power-durable batches are not a prefix of the commit order)",
     10: "P10 (ManifestInstall: a table covers an unknown or destroyed batch)",
     11: "WalAppend: batch number out of order", 12: "Relog of an unknown batch", 13: "Relog of a batch that is not power-durable",
-    20: "ManifestInstall moves log_number down", 71: "TableWrite over an existing table file", 72: "TableWrite of a table of the manifest",
+    20: "ManifestInstall moves log_number down", 72: "TableWrite of a table of the manifest",
     73: "TableSync of a table of the manifest",
 }
 
@@ -700,12 +700,26 @@ def check_trace(log, root, commits, cut_images, answers, workdir, label="", opts
     verdict = parts[0] if parts else "no-answer"
     if verdict != "ok":
         m = re.fullmatch(r"rej:(\d+):(\d+)", verdict)
+        # finding F51: the background flush of the memtable that `apply` just rotated switches the manifest before
+        # `relog_if_rotated` has logged the batch in the new segment (the rejected install is followed by that relog)
+        if m and int(m.group(2)) == 2 and toks[int(m.group(1))].startswith("mi:"):
+            k = int(m.group(1))
+            last_app = [tk for tk in toks[:k] if tk.startswith("app:")]
+            nxt = [tk for tk in toks[k + 1:k + 6] if tk.startswith("rel:")]
+            if last_app and nxt and nxt[0].split(":")[2] == last_app[-1].split(":")[2]:
+                li = ab.events[k][0]
+                desc = "%sproto_okb rejects event %d `%s` (log line %d): obligation %s; the batch is logged again only afterwards: %s" % (
+                    label, k, toks[k], li, OBLIGATION[2], " ".join(toks[max(0, k - 8):k + 6]))
+                res.setdefault("findings", []).append(("flush_before_relog_part_of_txn", desc, "# " + desc + "\n# workload: " + " ; ".join(l[3:] for l in (script1 or [])[1:]) + "\n"))
+                res["stats"]["rejected"] = 1
+                m = None
+                verdict = "classified"
         if m:
             k, code = int(m.group(1)), int(m.group(2))
             li = ab.events[k][0]
             res["disagreements"].append("%sproto_okb rejects event %d `%s` (log line %d: %s): obligation %s; preceding events: %s" % (
                 label, k, toks[k], li, log[li][:70], OBLIGATION.get(code, code), " ".join(toks[max(0, k - 12):k])))
-        else:
+        elif verdict != "classified":
             res["disagreements"].append("%smodel side gave no verdict: %s" % (label, verdict[:200]))
         res["stats"]["rejected"] = 1
     pred = {q[0]: p for q, p in zip(queries, parts[1:])}
